@@ -28,7 +28,7 @@ from vf.ob import Symx
 
 LEVEL = "model_checking"
 ASSUMPTIONS = [
-    "certs.dummy_cert is replaced by a record stub (cn, sans, serial) with Cert-like .cn/.altnames and identity equality (distinct serials)",
+    "certs.dummy_cert is replaced by a record stub (cn, sans, serial) with Cert-like .cn/.altnames and identity equality (distinct serials); like the real function it leaves cert.cn None for common names of 64+ characters",
     "the store's wildcard rule is read as: '*.S' covers every name with at least one label in front of S (any depth), '*' covers everything "
     "(that is what --certs documents); the oracle is the 6-line matcher _wild_match, not asterisk_forms",
     "pre-states of the inductive step are built by writing certs / expire_queue directly (generated part) and by the real add_cert (custom part)",
@@ -70,8 +70,16 @@ class RecCert:
         return f"<Rec#{self.serial} cn={self.cn!r} sans={[str(s.value) for s in self.sans]} {'gen' if self.generated else 'custom'}>"
 
 
+LONG = "l" * 62  # LONG + ".a" is a legal host name of 64 characters: too long for an X.509 CommonName
+
+
 def _stub_dummy_cert(privkey, cacert, commonname, sans, organization=None, crl_url=None):
-    return RecCert(commonname, sans, True)
+    # mirrors the one documented rule of certs.dummy_cert the store can observe: a common name of 64+ characters
+    # cannot be put into the subject, the generated certificate then has no CN (cert.cn is None)
+    cert_cn = commonname if commonname is not None and len(commonname) < 64 else None
+    c = RecCert(cert_cn, sans, True)
+    c.requested_cn = commonname
+    return c
 
 
 _KEY = object()
@@ -104,7 +112,9 @@ def _gn(v):
 
 def _name(X, tag, max_labels=3):
     n = X.choose(f"{tag}.labels", max_labels) + 1
-    return ".".join(X.choose(f"{tag}.l", LABELS) for _ in range(n))
+    # the first label may be the 62-character one (only with at least one more label, so the name has 64+ characters)
+    first = X.choose(f"{tag}.l", LABELS + [LONG]) if n >= 2 else X.choose(f"{tag}.l", LABELS)
+    return ".".join([first] + [X.choose(f"{tag}.l", LABELS) for _ in range(n - 1)])
 
 
 def _pattern(X, tag):
@@ -144,7 +154,7 @@ def _check_invariant(X, store, cap, where):
     X.check({id(v) for _, v in gen} == {id(e) for e in q}, "C17/invariant/queue-certs-disagree",
             f"{where}: generated entries reachable through certs ({len(gen)}) are not exactly the queued entries ({len(q)})")
     for (kc, ks), v in gen:
-        X.check(getattr(v.cert, "generated", False) and v.cert.cn == kc and v.cert.sans == ks, "C17/invariant/generated-key-mismatch",
+        X.check(getattr(v.cert, "generated", False) and getattr(v.cert, "requested_cn", v.cert.cn) == kc and v.cert.sans == ks, "C17/invariant/generated-key-mismatch",
                 f"{where}: key {(kc, [str(s.value) for s in ks])} maps to {v.cert!r}")
     for k, v in store.certs.items():
         if isinstance(k, str):
@@ -172,7 +182,7 @@ def _request(X, store, model, cap, cn, sans, sans_form="list"):
     c = e.cert
     if getattr(c, "generated", None) is True:
         X.reach("generated")
-        X.check(c.cn == cn and list(c.sans) == san_objs, "C17/serves-other-names/generated",
+        X.check(getattr(c, "requested_cn", c.cn) == cn and list(c.sans) == san_objs, "C17/serves-other-names/generated",
                 f"{what} returned a certificate generated for cn={c.cn!r} sans={[str(s.value) for s in c.sans]}")
     else:
         X.reach("custom")
@@ -249,10 +259,11 @@ def h_step(X, cap, thorough):
     if state in ("cap+hit-oldest", "cap+hit-newest"):
         fill[0 if state.endswith("oldest") else -1] = (cn, x509.GeneralNames([_gn(s) for s in sans]))
     elif state == "cap+other-oldest":
-        fill[0] = ("c.c.c.c", x509.GeneralNames([x509.DNSName("c.c.c.c")]))
+        # the oldest entry (the one the step must evict) was generated for a 64-character name: its certificate has no CN
+        fill[0] = (LONG + ".c", x509.GeneralNames([x509.DNSName(LONG + ".c")]))
     pre_hit = None
     for kc, ks in fill:
-        e = certs.CertStoreEntry(RecCert(kc, ks, True), _KEY, None, [])
+        e = certs.CertStoreEntry(_stub_dummy_cert(None, None, kc, ks), _KEY, None, [])
         store.certs[(kc, ks)] = e
         store.expire_queue.append(e)
         if (kc, ks) == (cn, x509.GeneralNames([_gn(s) for s in sans])):
